@@ -51,7 +51,7 @@ claim("C15",
       "DESIGN.md §4 C15")
 
 claim("C19",
-      "provenance of every leveldb key + edge-cut dominance of name validation + handle discipline + sibling agreement (clone comparison) + who-may-delete census + subtree deletion order",
+      "provenance of every leveldb key + edge-cut dominance of name validation + handle discipline + sibling agreement (clone comparison) + who-may-delete census + subtree deletion order + batch fate (every allocated leveldb.Batch reaches Write, followed through static callees)",
       "Structural isolation argument for the bucket store on every leveldb call site of package ldb: keys come only from the one key constructor (path+separator+key), index keys, or prefix iterators; every index write is dominated by validation of the name against the join separator; write buckets use only their own transaction, read-only buckets cannot write, BeginTx/Commit/Rollback map to the leveldb transaction; scans use path+separator prefixes and pathLen=len(path); the two bucket kinds agree operation-for-operation; db.Update has the rollback/commit shape.",
       "Trusted: go/ssa, goleveldb transaction semantics, util.BytesPrefix. NOT decided: map semantics for all operation sequences; adversarial keys beyond the separator rule; rdb (rocksdb tag, cgo) cannot be loaded and is out of scope.",
       "DESIGN.md §4 C19")
@@ -92,7 +92,7 @@ claim("C06",
       "Trusted: go/ssa, C12-B and C11-LOAD for the transaction and keeper gates. NOT decided: uniqueness across restarts as a value fact, an extra +1 (gap), behaviour under concurrency beyond lock discipline.",
       "DESIGN.md §4 C06")
 claim("C05",
-      "provenance + polarity check on the branch-selection phi + edge-cut dominance of the signing gates",
+      "provenance + polarity check on the branch-selection phi + edge-cut dominance of the signing gates + guard census of the import routine's persisting calls (dominance by counter tests)",
       "Static binding rules: a signing request is looked up under the address of the requested key and signs the caller's digest with the manager that owns the address; the private key cached for an address is Child(own index) of the branch key selected by its own branch (external test → Child(ExternalBranch) key, else Child(InternalBranch)); recorded derivation paths equal the Child() arguments; Sign only behind unlocked and a non-nil key of addrs[addr]; unknown keys fail first; the keeper signs with the key of the space named by the id.",
       "Trusted: go/ssa, hdkeychain.Child semantics. NOT decided: curve arithmetic, agreement of public-side and private-side derivation.",
       "DESIGN.md §4 C05")
